@@ -123,7 +123,10 @@ RegRespQ(E, q, p, newc) ==
     ELSE E
 
 \* Kademlia::disconnect_peer(p, query): new engine state
+\* (seeded mutation "ctx_gone_no_report": the function returns before telling the engine when the
+\* peer's context has already been removed by an earlier disconnect of the same peer)
 Disconnect(E, p, qopt) ==
+  IF Mut = "ctx_gone_no_report" /\ ~pctx[p] THEN E ELSE
   RegFailSet(E, (IF qopt # None THEN {qopt} ELSE {}) \cup (IF pctx[p] THEN {a.q : a \in pacts[p]} ELSE {}), p)
 
 Terminal(E, q, ok) ==
